@@ -25,7 +25,7 @@ class Prog:
       unstatic [names]: drop `static` from these definitions (file-scope objects/functions)
       link     True: compile the generated file as its own translation unit;
                False: the harness #includes "gen_<file>" (gives access to statics)
-      sub      [(regex, repl, count)] extra edits, each must match exactly `count` times
+      sub      [(regex, repl, count)] extra edits, each must match exactly `count` times (count may be a tuple of allowed counts)
     """
 
     def __init__(self, file, nomain=False, main_as=None, cut=(), unstatic=(), link=False,
@@ -61,7 +61,7 @@ class Prog:
                 raise PlanError("%s: no static definition of %s" % (self.file, name))
         for (rx, repl, count) in self.sub:
             text, n = re.subn(rx, repl, text, flags=re.M)
-            if n != count:
+            if (n not in count) if isinstance(count, (tuple, list)) else (n != count):
                 raise PlanError("%s: edit %r matched %d times, expected %d" % (self.file, rx, n, count))
         out = os.path.join(dest_dir, self.out)
         with open(out, "w", encoding="latin-1") as f:
